@@ -32,7 +32,7 @@ def gen_rar_cases(tier, seed, n_direct, n_e2e):
                  n=n0 + steps_cap * sel_x + slack_x, nt=nt0 + (steps_cap if rng.integers(2) else steps_cap + 1) * sel_t + slack_t,
                  cand_t=sel_t + int(rng.integers(0, 4)), cand_x=sel_x + int(rng.integers(0, 5)),
                  mode="direct" if k < n_direct else "e2e", draws=int(rng.integers(0, 4)),
-                 system=bool(k % 5 == 4), seed=seed * 100000 + k, cost=2.0)
+                 system=bool(k % 5 == 4), legs=2 if k % 4 == 1 else 1, seed=seed * 100000 + k, cost=2.0)
         # a store smaller than one set of additions can never be refined: not generated
         c["n"] = max(c["n"], sel_x)
         c["nt"] = max(c["nt"], sel_t)
@@ -162,28 +162,38 @@ def drive(case):
     pk = B["pk"]
     hist = []
     drain_sink()
+    legs = int(case.get("legs", 1))
     if case["mode"] == "direct":
-        data, t_fn, f_fn = init_rar(B["data"])
-        init_state = state_of(data, pk)
+        data = B["data"]
+        init_state = None
         step_draw = jax.jit(lambda g: g.get_batch())
-        for i in range(N_ITERS):
-            nd = int(rng.integers(0, case["draws"] + 1)) if case["draws"] else 0
-            for _ in range(nd):
+        for leg in range(legs):
+            # every solve() call starts with init_rar on the generator it is given (the one returned by the previous call)
+            data, t_fn, f_fn = init_rar(data)
+            if init_state is None:
+                init_state = state_of(data, pk)
+            for i in range(N_ITERS):
+                nd = int(rng.integers(0, case["draws"] + 1)) if case["draws"] else 0
+                for _ in range(nd):
+                    before = state_of(data, pk)
+                    data, _b = step_draw(data)
+                    hist.append(dict(i=i, leg=leg, kind="draw", before=before, after=state_of(data, pk), events=[]))
                 before = state_of(data, pk)
-                data, _b = step_draw(data)
-                hist.append(dict(i=i, kind="draw", before=before, after=state_of(data, pk), events=[]))
-            before = state_of(data, pk)
-            _, _, data = trigger_rar(i, B["loss"], B["params"], data, t_fn, f_fn)
-            ev = drain_sink()
-            hist.append(dict(i=i, kind="trigger", before=before, after=state_of(data, pk), events=ev))
+                _, _, data = trigger_rar(i, B["loss"], B["params"], data, t_fn, f_fn)
+                ev = drain_sink()
+                hist.append(dict(i=i, leg=leg, kind="trigger", before=before, after=state_of(data, pk), events=ev))
         return dict(history=hist, built=B, init=init_state, final=state_of(data, pk))
-    # ---- end to end: zero learning rate keeps the parameters constant
+    # ---- end to end: zero learning rate keeps the parameters constant; a second leg resumes with the returned generator
     init_state = state_of(B["data"], pk)
-    out = jinns.solve(n_iter=N_ITERS, init_params=B["params"], data=B["data"], loss=B["loss"],
-                      optimizer=optax.sgd(0.0), verbose=False)
-    ev = drain_sink()
-    return dict(history=[dict(i=None, kind="solve", before=init_state, after=state_of(out[3], pk), events=ev)],
-                built=B, init=init_state, final=state_of(out[3], pk))
+    data = B["data"]
+    for leg in range(legs):
+        before = state_of(data, pk)
+        out = jinns.solve(n_iter=N_ITERS, init_params=B["params"], data=data, loss=B["loss"],
+                          optimizer=optax.sgd(0.0), verbose=False)
+        data = out[3]
+        ev = drain_sink()
+        hist.append(dict(i=None, leg=leg, kind="solve", before=before, after=state_of(data, pk), events=ev))
+    return dict(history=hist, built=B, init=init_state, final=state_of(data, pk))
 
 
 class RarAutomaton:
